@@ -120,34 +120,36 @@ structure RemoveRes where
   removed : Bool
 deriving Repr, DecidableEq
 
+/-- `(s1 == end) || (',' == *s1)` -/
+def atEndOrComma : Bytes → Bool
+  | [] => true
+  | c :: _ => c == 44
+
+/-- room check and ", " separator before a copied token -/
+def sepBefore (bufSize copySize : Nat) (out : Bytes) : Option Bytes :=
+  if out.isEmpty then (if bufSize < copySize then none else some out)
+  else (if bufSize < out.length + copySize + 2 then none else some (out ++ [44, 32]))
+
+/-- copy the current (non-matching) token: `s1` = its first char, `s'` = where the comparison stopped -/
+def copyOneToken (bufSize : Nat) (s1 s' out : Bytes) : Option (Bytes × Bytes) :=
+  let copySize := s1.length - s'.length
+  match sepBefore bufSize copySize out with
+  | none => none
+  | some out1 => copyTokenRest bufSize (s'.length + 1) s' (out1 ++ s1.take copySize)
+
 def removeTokenLoop (bufSize : Nat) (token : Bytes) : Nat → Bytes → Bytes → Bool → Option RemoveRes
   | 0, _, out, rem => some ⟨out, rem⟩
   | fuel + 1, s, out, rem =>
-    match s with
-    | [] => some ⟨out, rem⟩
-    | _ =>
-      let s1 := s.dropWhile isWsComma
-      match s1 with
-      | [] => some ⟨out, rem⟩
-      | _ =>
-        let m := matchTok s1 token
-        let full := m.1 == token.length && token.length != 0
-        let s3 := m.2.dropWhile isWs
-        let atEnd := match s3 with | [] => true | c :: _ => c == 44
-        if full && atEnd then removeTokenLoop bufSize token fuel s3 out true
-        else
-          let s' := if full then s3 else m.2
-          let copySize := s1.length - s'.length
-          let copied := s1.take copySize
-          let out1? : Option Bytes :=
-            if out.isEmpty then (if bufSize < copySize then none else some out)
-            else (if bufSize < out.length + copySize + 2 then none else some (out ++ [44, 32]))
-          match out1? with
-          | none => none
-          | some out1 =>
-            match copyTokenRest bufSize (s'.length + 1) s' (out1 ++ copied) with
-            | none => none
-            | some (s'', out2) => removeTokenLoop bufSize token fuel s'' out2 rem
+    let s1 := s.dropWhile isWsComma
+    if s1.isEmpty then some ⟨out, rem⟩ else
+    let m := matchTok s1 token
+    let full := m.1 == token.length && token.length != 0
+    let s3 := m.2.dropWhile isWs
+    if full && atEndOrComma s3 then removeTokenLoop bufSize token fuel s3 out true
+    else
+      match copyOneToken bufSize s1 (if full then s3 else m.2) out with
+      | none => none
+      | some (s'', out2) => removeTokenLoop bufSize token fuel s'' out2 rem
 
 /-- `MHD_str_remove_token_caseless_ (str, len, token, token_len, buf, &buf_size)`;
     `none` ⇔ `*buf_size` set to -1 (output does not fit). -/
@@ -218,28 +220,42 @@ def copyTok (len : Nat) : Nat → Bytes → Nat → Nat → Option (Bytes × Nat
       if d != 44 then copyTok len fuel s1 pr1 pw1 else some (s1, pr1, pw1)
     else some (s1, pr1, pw1)
 
+/-- `(len == pr + tl || ',' == str[pr + tl]) && MHD_str_equal_caseless_bin_n_ (str + pr, tkn, tl)` -/
+def passMatch (tkn : Bytes) (len : Nat) (s : Bytes) (pr : Nat) : Option Bool := do
+  let tl := tkn.length
+  let atBoundary ← (if len == pr + tl then some true else do let c ← rd s (pr + tl); some (c == 44))
+  if atBoundary then eqCaselessBinN (s.drop pr) tkn tl else some false
+
+/-- first half of one round: skip a matching token or copy a non-matching one -/
+def passStep (tkn : Bytes) (len : Nat) (s : Bytes) (pr pw : Nat) (rem : Bool) : Option (Bytes × Nat × Nat × Bool) := do
+  let isMatch ← passMatch tkn len s pr
+  if isMatch then some (s, pr + tkn.length + 2, pw, true)
+  else do
+    let (sa, pwa) ← sepWrite s pr pw
+    let (sb, prb, pwb) ← copyTok len (len + 1) sa pr pwa
+    some (sb, prb + 2, pwb, rem)
+
+/-- "Copy the rest of the string" when the remainder is too short to match -/
+def passFinish (len : Nat) (s : Bytes) (pr pw : Nat) : Option (Bytes × Nat) :=
+  if len > pr then do
+    let copySize := len - pr
+    let (sa, pwa) ← sepWrite s pr pw
+    let sb ← (if pr != pwa then moveDown copySize sa pwa pr else some sa)
+    some (sb, pwa + copySize)
+  else some (s, pw)
+
 /-- the `do … while (1)` removal pass for one token over `str[0..len)` -/
 def removePass (tkn : Bytes) (len : Nat) : Nat → Bytes → Nat → Nat → Bool → Option (Bytes × Nat × Bool)
   | 0, s, _, pw, rem => some (s, pw, rem)
-  | fuel + 1, s, pr, pw, rem => do
-    let tl := tkn.length
-    -- (len == pr + tl || ',' == str[pr + tl]) && equal_caseless_bin_n (str + pr, tkn, tl)
-    let atBoundary ← (if len == pr + tl then some true else do let c ← rd s (pr + tl); some (c == 44))
-    let isMatch ← (if atBoundary then eqCaselessBinN (s.drop pr) tkn tl else some false)
-    let (s1, pr1, pw1, rem1) ←
-      (if isMatch then some (s, pr + tl + 2, pw, true)
-       else do
-         let (sa, pwa) ← sepWrite s pr pw
-         let (sb, prb, pwb) ← copyTok len (len + 1) sa pr pwa
-         some (sb, prb + 2, pwb, rem))
-    if len < pr1 + tl then
-      if len > pr1 then do
-        let copySize := len - pr1
-        let (sa, pwa) ← sepWrite s1 pr1 pw1
-        let sb ← (if pr1 != pwa then moveDown copySize sa pwa pr1 else some sa)
-        some (sb, pwa + copySize, rem1)
-      else some (s1, pw1, rem1)
-    else removePass tkn len fuel s1 pr1 pw1 rem1
+  | fuel + 1, s, pr, pw, rem =>
+    match passStep tkn len s pr pw rem with
+    | none => none
+    | some (s1, pr1, pw1, rem1) =>
+      if len < pr1 + tkn.length then
+        match passFinish len s1 pr1 pw1 with
+        | none => none
+        | some (sb, pwb) => some (sb, pwb, rem1)
+      else removePass tkn len fuel s1 pr1 pw1 rem1
 
 /-- outer loop over the tokens of `tokens` -/
 def removeTokensLoop : Nat → InPlace → Bytes → Option InPlace
